@@ -18,7 +18,8 @@ C12 decision core: file-backed ("lazy") data.
 * `step`     the `Data` methods as coded in this numpy-backed snapshot: a subspace of `disk`
              data is **not** deferred, it fetches exactly the requested part at once and yields
              `mem`; `array` fetches everything and caches nothing; `__setitem__`, `transpose`,
-             `insert_dimension` fetch everything and leave `mem`; `copy` and property edits touch
+             `insert_dimension`, `squeeze`, `flatten` fetch everything and leave `mem` (the last three
+             return at once, fetching nothing, when there is nothing to do); `copy` and property edits touch
              nothing; `equals` stops at a shape mismatch before fetching.
 * `estep`    the specification: the same operations on plain in-memory arrays (eager access).
 * `readVar`  what `NetCDFRead` does to each netCDF variable, by role.
@@ -86,6 +87,28 @@ def transposeArr {α} (A : Arr α) : Arr α :=
 /-- `np.expand_dims(a, 0)`. -/
 def insertDimArr {α} (A : Arr α) : Arr α :=
   { shape := 1 :: A.shape, get := fun idx => A.get idx.tail }
+
+/-- Multi-index of the source for a multi-index of `np.squeeze(a)`: a 0 at every axis of size one. -/
+def expandIdx : List Nat → List Nat → List Nat
+  | [], _ => []
+  | n :: ns, idx =>
+    if n == 1 then 0 :: expandIdx ns idx
+    else match idx with
+      | [] => 0 :: expandIdx ns []
+      | i :: is => i :: expandIdx ns is
+
+/-- `np.squeeze(a)`: the axes of size one removed. -/
+def squeezeArr {α} (A : Arr α) : Arr α :=
+  { shape := A.shape.filter (· != 1), get := fun idx => A.get (expandIdx A.shape idx) }
+
+/-- `np.unravel_index(i, shape)`. -/
+def unravel : List Nat → Nat → List Nat
+  | [], _ => []
+  | _ :: ns, i => let p := ns.foldl (· * ·) 1; (i / p) :: unravel ns (i % p)
+
+/-- `a.reshape(a.size)`: all axes flattened into one (row-major). -/
+def flattenArr {α} (A : Arr α) : Arr α :=
+  { shape := [A.shape.foldl (· * ·) 1], get := fun idx => A.get (unravel A.shape (idx.headD 0)) }
 
 /-- Is multi-index `idx` selected by the per-axis position lists? -/
 def hit : List (List Nat) → List Nat → Bool
@@ -287,6 +310,8 @@ inductive Op (α : Type) where
   | str (i : Nat)
   | transpose (i : Nat) (inplace : Bool)
   | insertDim (i : Nat) (inplace : Bool)
+  | squeeze (i : Nat) (inplace : Bool)
+  | flatten (i : Nat) (inplace : Bool)
   | edit (i : Nat)
 
 inductive Obs (α : Type) where
@@ -459,6 +484,25 @@ def step (b : Backend) (st : Store α) (w : World α) (op : Op α) : World α ×
       match getArray b st w s with
       | (.error e, w') => (w', .raised e)
       | (.ok a, w') => put w' i (.mem (insertDimArr a)) inplace
+  | .squeeze i inplace =>
+    match w.heap[i]? with
+    | none => (w, .raised .indexError)
+    | some s =>
+      -- `if not axes: return d` (no axis of size one) before anything is fetched
+      if !(s.shape.any (· == 1)) then put w i s inplace else
+      match getArray b st w s with
+      | (.error e, w') => (w', .raised e)
+      | (.ok a, w') => put w' i (.mem (squeezeArr a)) inplace
+  | .flatten i inplace =>
+    match w.heap[i]? with
+    | none => (w, .raised .indexError)
+    | some s =>
+      -- `if ndim <= 1: return d`; otherwise `d.transpose(range(ndim))` returns at once and
+      -- `d.array.reshape(…)` fetches everything
+      if s.shape.length ≤ 1 then put w i s inplace else
+      match getArray b st w s with
+      | (.error e, w') => (w', .raised e)
+      | (.ok a, w') => put w' i (.mem (flattenArr a)) inplace
 
 def run (b : Backend) (st : Store α) : World α → List (Op α) → World α × List (Obs α)
   | w, [] => (w, [])
@@ -556,6 +600,12 @@ def estep (e : EWorld α) (op : Op α) : EWorld α × Obs α :=
   | .insertDim i inplace => match e[i]? with
     | none => (e, .raised .indexError)
     | some a => eput e i (insertDimArr a) inplace
+  | .squeeze i inplace => match e[i]? with
+    | none => (e, .raised .indexError)
+    | some a => if !(a.shape.any (· == 1)) then eput e i a inplace else eput e i (squeezeArr a) inplace
+  | .flatten i inplace => match e[i]? with
+    | none => (e, .raised .indexError)
+    | some a => if a.shape.length ≤ 1 then eput e i a inplace else eput e i (flattenArr a) inplace
 
 def erun : EWorld α → List (Op α) → EWorld α × List (Obs α)
   | e, [] => (e, [])
@@ -585,6 +635,7 @@ inductive Role where
   | sample          -- a variable stored on a ragged / gathered sample dimension
   | nodesFlat       -- geometry node coordinates when there is no `part_node_count`
   | connT           -- UGRID connectivity stored with the cell dimension last
+  | connS           -- UGRID edge / face connectivity with a non-zero `start_index` (stored cells-first)
   | conn            -- UGRID connectivity stored cells-first
   deriving DecidableEq, Repr
 
@@ -604,6 +655,7 @@ def readOps (r : Role) : List (Op α) :=
   | .index => [.array 0]                     -- `np.unique(index.data.array, …)`
   | .nodesFlat => [.insertDim 0 true]        -- `bounds_insert_dimension(bounds, position=1)`
   | .connT => [.transpose 0 true]            -- `data = data.transpose()`
+  | .connS => [.toMemory 0 true]             -- `data._set_Array(data.array - start_index)` (7759b57)
   | _ => []
 
 /-- Reading one variable: its data start on disk, then `readOps`.  The dataset opened by
@@ -682,6 +734,7 @@ exempt it (open findings). -/
 def Role.realisedByRead : Role → Bool
   | .nodesFlat => true
   | .connT => true
+  | .connS => true
   | _ => false
 
 end Cfdm.Lazy
